@@ -151,6 +151,42 @@ def intersect_oracle(res):
                                    "cmd": "python3 -c 'from peppercompiler.design.constraint_load import intersect_groups as f; print(f(%r, %r))'" % (a, b)})
 
 
+def merge_oracle(res):
+    """the COMPILER's merge of two codes (Sequence.fix_seq of one letter onto a one-letter template, directly and through the
+    starred view): an error iff the codes share no base, otherwise the template becomes exactly the intersection code — and this
+    agrees with the designer front-end's intersect_groups"""
+    from peppercompiler import DNA_classes as D
+    from peppercompiler.design import constraint_load
+    grp = D.group
+    codes = sorted(grp)
+    for a, b in itertools.product(codes, repeat=2):
+        want = "".join(sorted(set(grp[a]) & set(grp[b])))
+        for view in ("plain", "starred"):
+            res.evaluations += 1
+            try:
+                x = D.Sequence("x", "", [(1, a)])
+                if view == "plain":
+                    x.fix_seq(b)
+                else:
+                    (~x).fix_seq(D.complement[b])     # fixing x* to the complement of b is fixing x to b
+                got = x.const
+            except ValueError:
+                got = None
+            except Exception as e:
+                got = "raised %s" % type(e).__name__
+            ok = (got is None and not want) or (got in grp and "".join(sorted(grp[got])) == want and bool(want))
+            if ok and want:
+                try:
+                    ok = constraint_load.intersect_groups(a, b) == got
+                except Exception:
+                    ok = False
+            if not ok:
+                res.violations.append({"what": "the compiler's merge of template code %s with fixed code %s (%s view) gives %r; the codes share the bases %s"
+                                               % (a, b, view, got, want or "(none: must be an error)"),
+                                       "input": {"template": a, "fixed": b, "view": view}, "sig": "C11:compiler-merge:%s%s" % (a, b),
+                                       "cmd": "python3 -c 'from peppercompiler.DNA_classes import Sequence as S; x=S(\"x\",\"\",[(1,%r)]); x.fix_seq(%r); print(x.const)'" % (a, b)})
+
+
 def correspondence(st, res, seed, n):
     """model `intersect` / `wcStr` on the generated table vs the live Python functions"""
     from peppercompiler.design import constraint_load
@@ -193,6 +229,7 @@ def run(st, tier, seed):
     oracle(st.tables, res)
     strings_oracle(res, seed, 300 if tier == "quick" else 20000)
     intersect_oracle(res)
+    merge_oracle(res)
     try:
         correspondence(st, res, seed, 200 if tier == "quick" else 5000)
     except Exception as e:
